@@ -315,6 +315,7 @@ def _on_alarm(*_):
 class Node:
     """a real KademliaProtocol with a populated routing table and data store, a fake transport and a
     virtual clock that the harness advances by one per datagram"""
+    hangs = 0
 
     def __init__(self):
         self.loop = asyncio.new_event_loop()
@@ -358,11 +359,12 @@ class Node:
         before = self.snapshot()
         escaped = None
         old = signal.signal(signal.SIGALRM, _on_alarm)
-        signal.alarm(10)
+        signal.alarm(10 if Node.hangs < 3 else 1)
         try:
             self.proto.datagram_received(data, sender)
         except Hang:
             escaped = 'HANG'
+            Node.hangs += 1
         except BaseException as e:  # noqa
             escaped = type(e).__name__
         finally:
@@ -724,7 +726,7 @@ def check_datagram(ctx, data, sender, kind, expect=None):
     # ---- monitor: the property's statement on the implementation's behaviour --------------------
     bad = None
     if obs['escaped'] == 'HANG':
-        bad = 'datagram_received did not return within 10 s'
+        bad = 'datagram_received did not return (10 s alarm; 1 s after the third hang of a run)'
     elif obs['escaped']:
         bad = f"{obs['escaped']} escaped KademliaProtocol.datagram_received"
     elif not obs['routing_unchanged']:
@@ -931,8 +933,12 @@ def check_decompact(ctx, ca):
     run.count('compact decode ' + ('ok' if 'ok' in impl else impl['err']))
     if 'ok' in impl:
         n, a, p = decode_compact_address(ca)
-        if bytes(make_compact_address(n, a, p)) != ca:
-            run.violation(case, 'decoded compact address does not re-encode to the same bytes', signature=case)
+        try:
+            again = bytes(make_compact_address(n, a, p))
+        except Exception as e:  # noqa
+            again = err_name(e)
+        if again != ca:
+            run.violation(case, f'decoded compact address does not re-encode to the same bytes: {again!r}', signature=case)
             return
     run.compare('C17.decode_compact_address', case, impl, mod)
 
@@ -941,11 +947,11 @@ def check_decompact(ctx, ca):
 # corpus
 # ------------------------------------------------------------------------------------------------
 
-def load_corpus():
+def load_corpus(prefix='regressions'):
     out = []
     if os.path.isdir(CORPUS):
         for nm in sorted(os.listdir(CORPUS)):
-            if nm.endswith('.json'):
+            if nm.endswith('.json') and nm.startswith(prefix):
                 for c in json.load(open(os.path.join(CORPUS, nm))):
                     out.append(c)
     return out
@@ -1003,6 +1009,8 @@ def main(run):
     for c in load_corpus():
         check_datagram(ctx, bytes.fromhex(c['datagram']), tuple(c.get('sender', SENDERS[0])), 'corpus', c.get('expect'))
 
+    for c in load_corpus('messages'):
+        check_message(ctx, c['m'], message_from_desc(c['m']), kind='corpus')
     lap('corpus')
     # -- well-formed messages -------------------------------------------------------------------
     valid = []
